@@ -190,25 +190,24 @@ class Interval(Duration, Generic[_T]):
             else:
                 start = cast(_T, pendulum.date(start.year, start.month, start.day))
 
-            _start = start
+        # precise_diff() works on the wall clock of native values
+        if isinstance(start, pendulum.DateTime):
+            _start = cast(
+                _T,
+                datetime(
+                    start.year,
+                    start.month,
+                    start.day,
+                    start.hour,
+                    start.minute,
+                    start.second,
+                    start.microsecond,
+                    tzinfo=start.tzinfo,
+                    fold=start.fold,
+                ),
+            )
         else:
-            if isinstance(start, pendulum.DateTime):
-                _start = cast(
-                    _T,
-                    datetime(
-                        start.year,
-                        start.month,
-                        start.day,
-                        start.hour,
-                        start.minute,
-                        start.second,
-                        start.microsecond,
-                        tzinfo=start.tzinfo,
-                        fold=start.fold,
-                    ),
-                )
-            else:
-                _start = cast(_T, date(start.year, start.month, start.day))
+            _start = cast(_T, date(start.year, start.month, start.day))
 
         _end: _T
         if not isinstance(end, pendulum.Date):
@@ -217,25 +216,23 @@ class Interval(Duration, Generic[_T]):
             else:
                 end = cast(_T, pendulum.date(end.year, end.month, end.day))
 
-            _end = end
+        if isinstance(end, pendulum.DateTime):
+            _end = cast(
+                _T,
+                datetime(
+                    end.year,
+                    end.month,
+                    end.day,
+                    end.hour,
+                    end.minute,
+                    end.second,
+                    end.microsecond,
+                    tzinfo=end.tzinfo,
+                    fold=end.fold,
+                ),
+            )
         else:
-            if isinstance(end, pendulum.DateTime):
-                _end = cast(
-                    _T,
-                    datetime(
-                        end.year,
-                        end.month,
-                        end.day,
-                        end.hour,
-                        end.minute,
-                        end.second,
-                        end.microsecond,
-                        tzinfo=end.tzinfo,
-                        fold=end.fold,
-                    ),
-                )
-            else:
-                _end = cast(_T, date(end.year, end.month, end.day))
+            _end = cast(_T, date(end.year, end.month, end.day))
 
         self._invert = False
         if _is_later(start, end):
